@@ -10,6 +10,10 @@ functions, lemmas) with directive blocks:
     //@@ vis <text>                       replace the visibility prefix (e.g. `pub`)
     //@@ x2 <n>                           rule X2 (step_by desugaring) must fire exactly n times
     //@@ subst <n> `old` => `new`         declared textual rule, must fire exactly n times (code regions only)
+    //@@ rename <old> <new> [from `<anchor>`]   rule X4 (alpha-renaming to a fresh name)
+    //@@ x5 <n>                           rule X5 (#[async_generic] sync expansion: `if _sync {A} else {B}` => `{A}`), n times
+    //@@ cfg <feature>=on|off             rule X6 (resolve cfg(feature) attributes inside the function)
+    //@@ name <new>                       rename the extracted fn itself (for a second instantiation of the same source)
     //@@ spec                             following lines go between signature and body
     //@@ loop <k> [iter <binder>]         following lines go between the head of loop #k and its body
     //@@ bodystart                        following lines go right after the opening brace of the body
@@ -206,6 +210,78 @@ def apply_subst(text, old, new):
     return ''.join(out), n
 
 
+def _blank(s):
+    return ''.join(ch if ch == '\n' else ' ' for ch in s)
+
+
+def apply_x5(text):
+    """rule X5: the sync expansion of #[async_generic]: `if _sync { A } else { B }` => `{ A }`"""
+    n = 0
+    while True:
+        code = strip_map(text)
+        m = re.search(r'\bif\s+_sync\s*\{', code)
+        if not m:
+            break
+        o = m.end() - 1
+        c = match_close(code, o)
+        m2 = re.match(r'\s*else\s*\{', code[c + 1:])
+        if not m2:
+            raise ExtractError('X5: `if _sync` without else block')
+        o2 = c + 1 + m2.end() - 1
+        c2 = match_close(code, o2)
+        text = text[:m.start()] + _blank(text[m.start():o]) + text[o:c + 1] + _blank(text[c + 1:c2 + 1]) + text[c2 + 1:]
+        n += 1
+    if re.search(r'\b_sync\b', strip_map(text)):
+        raise ExtractError('X5: unsupported use of _sync')
+    return text, n
+
+
+def apply_cfg(text, feature, on):
+    """rule X6: resolve #[cfg(feature = "f")] / #[cfg(not(feature = "f"))] on blocks, statements and tail expressions"""
+    n = 0
+    pat = re.compile(r'#\[cfg\((not\()?feature\s*=\s*"' + re.escape(feature) + r'"\)?\)\]')
+    pos = 0
+    while True:
+        # attribute text contains a string literal, so search the raw text and check the `#` is code
+        code = strip_map(text)
+        m = pat.search(text, pos)
+        if not m:
+            break
+        if code[m.start()] != '#':
+            pos = m.end()
+            continue
+        keep = on != bool(m.group(1))
+        k = m.end()
+        while code[k].isspace():
+            k += 1
+        if keep:
+            text = text[:m.start()] + _blank(text[m.start():m.end()]) + text[m.end():]
+        else:
+            if code[k] == '{':
+                e = match_close(code, k) + 1
+            else:
+                if re.match(r'(if|match|for|while|loop)\b', code[k:]):
+                    raise ExtractError('X6: cfg on a compound statement is not supported')
+                depth = 0
+                e = k
+                while e < len(code):
+                    ch = code[e]
+                    if ch in '([{':
+                        depth += 1
+                    elif ch in ')]}':
+                        if depth == 0:
+                            break
+                        depth -= 1
+                    elif ch == ';' and depth == 0:
+                        e += 1
+                        break
+                    e += 1
+            text = text[:m.start()] + _blank(text[m.start():e]) + text[e:]
+        n += 1
+        pos = m.start() + 1
+    return text, n
+
+
 def apply_rename(text, old, new, anchor):
     """rule X4: alpha-rename identifier `old` to the fresh name `new`; with an anchor the renaming
     starts at the binding on the first line that starts with the anchor (Rust shadowing scope)"""
@@ -290,6 +366,9 @@ class FnBlock:
         self.x2 = 0
         self.substs = []      # (n, old, new)
         self.renames = []     # (old, new, from_anchor or None)
+        self.newname = None
+        self.x5 = None        # expected number of `if _sync` reductions
+        self.cfgs = []        # (feature, on?)
         self.spec = []
         self.loops = {}       # k -> (binder, [lines])
         self.bodystart = []
@@ -315,6 +394,16 @@ def render_fn(repo, blk, tmpl_line):
         raise ExtractError('%s::%s: rule X2 fired %d times, unit records %d' % (blk.file, blk.name, fired, blk.x2))
     if fired:
         info['rules']['X2'] = fired
+    if blk.x5 is not None:
+        text, k = apply_x5(text)
+        if k != blk.x5:
+            raise ExtractError('%s::%s: rule X5 fired %d times, unit records %d' % (blk.file, blk.name, k, blk.x5))
+        info['rules']['X5'] = k
+    for (feat, on) in blk.cfgs:
+        text, k = apply_cfg(text, feat, on)
+        if k == 0:
+            raise ExtractError('%s::%s: rule X6 found no cfg(feature = "%s")' % (blk.file, blk.name, feat))
+        info['rules'].setdefault('X6', []).append({'feature': feat, 'on': on, 'fired': k})
     for (n, old, new) in blk.substs:
         text, k = apply_subst(text, old, new)
         if k != n:
@@ -341,12 +430,15 @@ def render_fn(repo, blk, tmpl_line):
     body = text[body_open:]
     sig_lines = sig.count('\n')
     # signature edits
+    if blk.newname:
+        sig, k = re.subn(r'\bfn\s+' + re.escape(blk.name) + r'\b', 'fn ' + blk.newname, sig, count=1)
+        info['rules']['renamed_item'] = blk.newname
     if blk.vis is not None:
         m = re.match(r'\s*(pub(\([^)]*\))?\s+)?', sig)
         sig = blk.vis + (' ' if blk.vis else '') + sig[m.end():]
     if blk.ret:
         scode = strip_map(sig)
-        p = scode.index('(', scode.index(blk.name))
+        p = scode.index('(', scode.index(blk.newname or blk.name))
         q = match_close(scode, p, '(', ')')
         rest = sig[q + 1:]
         m = re.match(r'(\s*->\s*)(.*?)(\s*(\bwhere\b.*)?)$', rest, re.S)
@@ -472,7 +564,9 @@ def render_struct(repo, file, name, fields):
     if missing:
         raise ExtractError('struct %s: fields not found: %s' % (name, missing))
     total = len([p for p in parts if icode[p[0]:p[1]].strip()])
-    text = 'pub struct %s {\n%s\n}' % (name, '\n'.join(kept))
+    generics = src[m.start():o]
+    generics = generics[generics.index(name) + len(name):].strip()
+    text = 'pub struct %s%s {\n%s\n}' % (name, generics, '\n'.join(kept))
     line = src.count('\n', 0, m.start()) + 1
     info = {'file': file, 'item': 'struct ' + name, 'lines': [line, src.count('\n', 0, c) + 1],
             'sha256': hashlib.sha256(src[m.start():c + 1].encode()).hexdigest(),
@@ -573,6 +667,18 @@ def generate(repo, tmpl_path, probe=False):
                             cur = None
                         elif d2.startswith('x2 '):
                             blk.x2 = int(d2[3:])
+                            cur = None
+                        elif d2.startswith('name '):
+                            blk.newname = d2[5:].strip()
+                            cur = None
+                        elif d2.startswith('x5 '):
+                            blk.x5 = int(d2[3:])
+                            cur = None
+                        elif d2.startswith('cfg '):
+                            m = re.match(r'cfg\s+(\w+)=(on|off)$', d2)
+                            if not m:
+                                raise ExtractError('bad cfg directive at template line %d' % (i + 1))
+                            blk.cfgs.append((m.group(1), m.group(2) == 'on'))
                             cur = None
                         elif d2.startswith('subst '):
                             m = re.match(r'subst\s+(\d+)\s+`(.*)`\s*=>\s*`(.*)`$', d2)
